@@ -41,6 +41,7 @@ inductive Src where
   | c (b : Bool)                              -- a constant
   | inp (arg : Bool) (j : Nat) (neg : Bool)   -- bit `j` of the raw value (`arg = false`) / of the written value (`arg = true`), negated if `neg`
   | ors (ls : List Lit)                       -- the disjunction of two or more input bits (writes through a list that names a bit twice)
+  | x2 (g : Bool) (j : Nat) (g' : Bool) (j' : Nat) (neg : Bool)   -- bit `(g, j)` xor bit `(g', j')` (two different positions, the first one smaller), negated if `neg` – the intermediate value of the merge idiom `a ^ ((a ^ b) & m)`
   | top                                       -- poison: not expressible (never part of a result)
   deriving DecidableEq, Repr, Inhabited
 
@@ -49,12 +50,14 @@ def Src.eval (raw fv : Nat) : Src → Bool
   | .inp false j n => raw.testBit j != n
   | .inp true j n => fv.testBit j != n
   | .ors ls => ls.any (Lit.eval raw fv)
+  | .x2 g j g' j' n => (((if g then fv else raw).testBit j != (if g' then fv else raw).testBit j') != n)
   | .top => false
 
 def Src.not : Src → Src
   | .c b => .c (!b)
   | .inp a j n => .inp a j (!n)
   | .ors _ => .top
+  | .x2 g j g' j' n => .x2 g j g' j' (!n)
   | .top => .top
 
 def Src.and (x y : Src) : Src :=
@@ -84,8 +87,21 @@ def Src.or (x y : Src) : Src :=
       if Src.inp g j n = .inp g' j' n' then .inp g j n
       else if g = g' ∧ j = j' then .c true
       else .ors (insertLit ⟨g, j, n⟩ [⟨g', j', n'⟩])
+  | _, _ => .top
 
-/-- `x ^ y` on one position: constants, an input bit against a constant, or the same input bit twice -/
+/-- position `(g, j)` comes before `(g', j')`: raw bits before value bits, then by index -/
+def posLt (g : Bool) (j : Nat) (g' : Bool) (j' : Nat) : Bool := (!g && g') || (g == g' && j < j')
+
+/-- the exclusive or of two input bits at different positions, in canonical order -/
+def mk2 (g : Bool) (j : Nat) (n : Bool) (g' : Bool) (j' : Nat) (n' : Bool) : Src :=
+  if posLt g j g' j' then .x2 g j g' j' (n != n') else .x2 g' j' g j (n != n')
+
+/-- `(p1 ^ p2 ^ n) ^ (bit (g, j) ^ m)`: one of the two positions cancels, or there is no normal form -/
+def x2inp (g1 : Bool) (j1 : Nat) (g2 : Bool) (j2 : Nat) (n : Bool) (g : Bool) (j : Nat) (m : Bool) : Src :=
+  if g = g1 ∧ j = j1 then .inp g2 j2 (n != m) else if g = g2 ∧ j = j2 then .inp g1 j1 (n != m) else .top
+
+/-- `x ^ y` on one position: constants, an input bit against a constant, the same input bit twice, two different input
+    bits (`x2`), and an `x2` against one of its own bits (which cancels) -/
 def Src.xor (x y : Src) : Src :=
   match x, y with
   | .top, _ => .top
@@ -94,7 +110,11 @@ def Src.xor (x y : Src) : Src :=
   | s, .c false => s
   | .c true, s => s.not
   | s, .c true => s.not
-  | .inp g j n, .inp g' j' n' => if g = g' ∧ j = j' then .c (n != n') else .top
+  | .inp g j n, .inp g' j' n' => if g = g' ∧ j = j' then .c (n != n') else mk2 g j n g' j' n'
+  | .x2 g1 j1 g2 j2 n, .inp g j m => x2inp g1 j1 g2 j2 n g j m
+  | .inp g j m, .x2 g1 j1 g2 j2 n => x2inp g1 j1 g2 j2 n g j m
+  | .x2 g1 j1 g2 j2 n, .x2 g1' j1' g2' j2' n' =>
+      if g1 = g1' ∧ j1 = j1' ∧ g2 = g2' ∧ j2 = j2' then .c (n != n') else .top
   | _, _ => .top
 
 /-- `if c { x } else { y }`, bit by bit -/
